@@ -66,6 +66,11 @@ def gen(ctx):
         n, T = rng.randint(2, 6), rng.randint(6, 30)
         obs = np.array([[float(rng.randint(-9, 9)) for _ in range(n)]
                         for _ in range(T)])
+        # counts / packed records arrive with an integer dtype
+        # (float32 data are processed in float32: not compared here, the
+        # references and the model are exact)
+        obs = obs.astype(rng.choice(["float64", "float64", "float64",
+                                     "int32", "int16", "int64"]))
         lat = np.array([rng.randrange(-80, 81, 5) + rng.choice([0, 0.5])
                         for _ in range(n)], dtype=float)
         lon = np.array([rng.randrange(-170, 171, 5) + rng.choice([0, 0.25])
